@@ -953,3 +953,9 @@ fire('c05-affine-cached', 'C05', EV, 'Evolvent.__TransformP2D',
      '        self.yValues = self.yValues * self.boxSize + self.boxCenter', 'R05.3',
      also=[(EV, 'Evolvent.__init__', '        self.evolventDensity = evolventDensity\n',
             '        self.evolventDensity = evolventDensity\n        self.boxSize = self.upperBoundOfFloatVariables - self.lowerBoundOfFloatVariables\n        self.boxCenter = (self.upperBoundOfFloatVariables + self.lowerBoundOfFloatVariables) / 2\n')])
+fire('c03-default-number', 'C03', P, 'Process.DoGlobalIteration', 'def DoGlobalIteration(self, number: int = 1):',
+     'def DoGlobalIteration(self, number: int = 2):', 'R03.5')
+fire('c06-right-not-requeued', 'C06', SD, 'SearchData.InsertDataItem',
+     '        if flag:\n            self._RGlobalQueue.Insert(rightDataItem.globalR, rightDataItem)\n', '', 'R06.1')
+fire('c19-right-not-requeued', 'C19', SD, 'SearchData.InsertDataItem',
+     '        if flag:\n            self._RGlobalQueue.Insert(rightDataItem.globalR, rightDataItem)\n', '', 'R19.1')
